@@ -217,7 +217,7 @@ impl Property for C03 {
     }
     fn rule(&self, tier: Tier) -> String {
         format!(
-            "queue layer: the C01 explicit-state BFS with the tie oracle (fetch_next must return exactly the head of the reference list ordered by (time, scheduled-for-current-instant first, scheduling order)) on (n,t,depth) = {:?}, plus long bursts for one instant (k in {{1,2,63,64,65,66,129,200}} events scheduled for the current instant, before the first dispatch or behind an older event of that instant, with follow-ups scheduled while the burst drains) on 4 parameterisations; \
+            "queue layer: the C01 explicit-state BFS with the tie oracle (fetch_next must return exactly the head of the reference list ordered by (time, scheduled-for-current-instant first, scheduling order)) on (n,t,depth) = {:?} (drain after every history; 3 configurations also to depth 5 / 6 without merging states), plus long bursts for one instant (k in {{1,2,63,64,65,66,129,200}} events scheduled for the current instant, before the first dispatch or behind an older event of that instant, with follow-ups scheduled while the burst drains) on 4 parameterisations; \
              runtime layer: every event program of 1..={} events with delays from {:?} x start in {{0,5}}, each run on 5 queue parameterisations (logs must equal the rule and each other) and with 1 and 4 unrelated future events; \
              net layer: every sequence of 1..={} actions from {{send over two channel-less chains, send over a latency channel, schedule_in(0), schedule_in(d)}} emitted by one handler, on 4 queue parameterisations, plus long bursts (16..70 events, thorough up to 300) of every periodic pattern of period 1..3 over six actions (three self-schedule delays, direct and latency sends); \
              distinct_nontrivial = distinct canonical queue states with pending events + programs/sequences containing at least one tie",
